@@ -729,6 +729,32 @@ func init() {
 		return size.Stat(data, a[2].Int(), a[3].Int(), opt)
 	}
 	Exec["size.Stat/text"] = func(a []V) string { return Str(c20Stat(a)) }
+	Exec["size.Stat/opts"] = func(a []V) string {
+		data := c20Arg(a[0])
+		if data != nil {
+			stable := true
+			lab, err := ParseVal(c20Label(a[0], reflect.ValueOf(data), &stable))
+			if err != nil || c20Dump(lab) != c20Dump(a[1]) {
+				c20Fatal("labels do not fit the value")
+			}
+		}
+		opts := []interface{}{}
+		for _, o := range a[4].L {
+			switch o.L[0].Int() {
+			case 0:
+				opt := size.Opt{AvgOf: o.L[1].Int()}
+				if len(o.L[2].L) == 1 {
+					opt.AvgUnit = math.Ldexp(1, o.L[2].L[0].Int())
+				}
+				opts = append(opts, opt)
+			case 1:
+				opts = append(opts, 5)
+			default:
+				opts = append(opts, &size.Opt{AvgOf: 3})
+			}
+		}
+		return Str(size.Stat(data, a[2].Int(), a[3].Int(), opts...))
+	}
 	Exec["size.Stat/sorted"] = func(a []V) string {
 		lines := strings.Split(c20Stat(a), "\n")
 		sort.Strings(lines)
@@ -1213,6 +1239,27 @@ func genC20(g *Gen) {
 			rk = fmt.Sprintf("%s/report%d,%d/cutD%s/cutM%s/avg%s/%s", key, minInt(d, 5), minInt(m, 6), B(det.cutDepth), B(det.cutMax), B(avg > 0), op[10:])
 		}
 		g.Do(op, L(text, lab, Int(d), Int(m), Int(avg), unit), rk)
+		// the variadic options: 0..3 of them, an Opt / an int / a *Opt
+		if det.text && g.R.Intn(6) == 0 {
+			n := g.R.Pick(0, 1, 1, 2, 2, 3)
+			opts := make([]string, n)
+			kinds := ""
+			for i := range opts {
+				switch g.R.Pick(0, 0, 0, 1, 2) {
+				case 0:
+					opts[i] = L("0", Int(g.R.Pick(0, 1, 3, 10, 1000)), []string{L(), L("-3"), L("2")}[g.R.Intn(3)])
+					kinds += "O"
+				case 1:
+					opts[i] = L("1")
+					kinds += "i"
+				default:
+					opts[i] = L("2")
+					kinds += "p"
+				}
+			}
+			g.Stat("report-opts")
+			g.Do("size.Stat/opts", L(text, lab, Int(d), Int(m), L(opts...)), "opts/"+kinds)
+		}
 	}
 	emit := func(text, bucket string) {
 		key, depth := c20Key(text)
